@@ -511,7 +511,7 @@ theorem visitData_cases {s : Station} {d : UseData} (h : visitData s = some d) :
   · subst h; exact .inl ⟨_, rfl⟩
   · subst h; exact .inr ⟨_, rfl⟩
 
-theorem visitData_holding {s : Station} {d : UseData} (h : visitData s = some d) : Holding s := by
+theorem visitData_holding {s : Station} {d : UseData} (h : visitData s = some d) : AppHolding s := by
   rcases visitData_cases h with ⟨fcd, h⟩ | ⟨a, h⟩
   · exact .inl ⟨d, fcd, h⟩
   · exact .inr ⟨a, d, h⟩
